@@ -116,9 +116,10 @@ func verif_SetRunningStatus(pw *Wrapper, remoteAddr string, respErr string) {
 //
 //verif:contract (*~/client/proxy.Wrapper).Stop
 //verif:props C19
-func verif_Stop(pw *Wrapper) {
+func verif_Stop(pw *Wrapper, o *Wrapper) {
 	verif.Requires(pw.closeCh != nil && pw.healthNotifyCh != nil && !verif.Closed(pw.closeCh) && !verif.Closed(pw.healthNotifyCh), "constructed_and_stopped_at_most_once")
 	name := pw.Name
+	oc0, oh0 := verif.Closed(o.closeCh), verif.Closed(o.healthNotifyCh)
 	verif.ResetEvents()
 	pw.Stop()
 	verif.Ensures(verif.Closed(pw.closeCh) && verif.Closed(pw.healthNotifyCh), "workers_told_to_end")
@@ -128,6 +129,9 @@ func verif_Stop(pw *Wrapper) {
 	cp, isClose := p.(*event.CloseProxyPayload)
 	verif.Ensures(verif.Called(evHandler) && isClose && cp.CloseProxyMsg != nil && cp.CloseProxyMsg.ProxyName == name, "close_proxy_sent_for_this_name")
 	verif.Ensures(!verif.Held(&pw.mu), "lock_released")
+	// frame: the channels of every other wrapper o stay as they were
+	verif.Ensures(o.closeCh == pw.closeCh || verif.Closed(o.closeCh) == oc0, "other_wrappers_close_channel_untouched")
+	verif.Ensures(o.healthNotifyCh == pw.healthNotifyCh || verif.Closed(o.healthNotifyCh) == oh0, "other_wrappers_notify_channel_untouched")
 }
 
 // InWorkConn: "a stopped proxy ... accepts no further work connection": a work
@@ -297,6 +301,15 @@ func verifReloadAdd(pm *Manager, name string) bool {
 	return !verif.CalledInIter("Wrapper).Start") && !verif.CalledInIter("Wrapper).Stop")
 }
 
+// Loop invariants of the reload: the manager's monitor invariants hold at every
+// loop head (a dropped entry leaves the table before it is stopped).
+//
+//verif:loop (*~/client/proxy.Manager).UpdateAll 1 inv=verifLoopLive args=pm
+//verif:loop (*~/client/proxy.Manager).UpdateAll 2 inv=verifLoopLive args=pm
+func verifLoopLive(pm *Manager, n1, n2 string) bool {
+	return pm.verifInvLive(n1) && pm.verifInvDistinct(n1, n2)
+}
+
 //verif:contract (*~/client/proxy.Manager).UpdateAll
 //verif:props C19
 func verif_UpdateAll(pm *Manager, proxyCfgs []v1.ProxyConfigurer) {
@@ -310,6 +323,15 @@ func verif_UpdateAll(pm *Manager, proxyCfgs []v1.ProxyConfigurer) {
 //
 //verif:loopbody (*~/client/proxy.Manager).Close 1 check=verifCloseStops args=pxy
 func verifCloseStops(pxy *Wrapper) bool { return verif.CalledWithInIter("Wrapper).Stop", 0, pxy) }
+
+// While Close runs, the entries not yet visited are still live.
+//
+//verif:loop (*~/client/proxy.Manager).Close 1 inv=verifLoopClose args=pm
+func verifLoopClose(pm *Manager, n1, n2 string) bool {
+	w, ok := pm.proxies[n1]
+	return pm.proxies != nil && pm.verifInvDistinct(n1, n2) &&
+		(!ok || verif.Visited(pm.proxies, n1) || (w != nil && w.closeCh != nil && w.healthNotifyCh != nil && !verif.Closed(w.closeCh) && !verif.Closed(w.healthNotifyCh)))
+}
 
 //verif:contract (*~/client/proxy.Manager).Close
 //verif:props C19
